@@ -1,4 +1,5 @@
 """C05 Reference counts / GC — structural clause: edge linearity (E-LIN)."""
+import ecount
 import eptr
 import eswap
 import ewho
@@ -122,5 +123,8 @@ def run(ctx):
     nsb = efreelist.check_store_binding(ctx, F)
     ctx.floor("E-FREELIST.binding", "current_store tests", nsb, 2)
     ewho.check_gate_initial(ctx, F)
+    ctx.explain("E-COUNT.underflow: no unsigned local that starts at the literal 0 is only ever decremented (it would underflow at its "
+                "first update); detector checked against a built-in positive example on every run.")
+    ecount.run(ctx, F, ('oxidd_manager_index', 'oxidd_manager_pointer', 'arcslab'))
     ctx.not_decided = ("exactness of counts over histories; the unsafe internals of the managers; "
                        "capacity restoration after gc")
